@@ -96,7 +96,7 @@ def splits(full):
     out = []
     for cut in range(1, len(full)):
         leaf = full[cut:]
-        if re.match(r'^[a-zA-Z_.][\w.<>]*$', leaf):
+        if re.match(r'^[a-zA-Z_.][\w.<>]*$', leaf) and leaf not in ('t', 'f', 'true', 'false'):      # #t and #f are the booleans
             out.append((full[:cut], leaf))
     return out
 
@@ -202,6 +202,16 @@ def gen_case(rng, cid):
             probes.append(('pairs', p, forms))
         if cur != b1:
             ev(f'(unalias {b1[4:]})')
+    # (c3) an alias spelled like an existing signal: the bare name and (get ..) both follow the alias, and the signal again after unalias
+    if len(names) >= 2:
+        f1, f2 = rng.sample(names, 2)
+        if f1.rsplit('.', 1)[1] not in OPLIKE and f2.rsplit('.', 1)[1] not in OPLIKE:
+            ev(f"(alias {f1} '{f2})")
+            forms = [f1, f'(get "{f1}")', f"(get '{f1})"]
+            p = ev('(list ' + ' '.join(f'{f} {f2}' for f in forms) + ')')
+            probes.append(('pairs', p, forms))
+            ev(f'(unalias {f1})')
+            ev('(step 0)')
     # (d) context restoration
     def nest(depth):
         if depth == 0 or rng.random() < 0.2:
